@@ -490,6 +490,12 @@ def check_attr_helpers(ctx):
               sample='returns out_attrs iff it is None')
 
     g = repo.fn(GENERIC, 'get_attrs_to_project')
+    if not [n for n in walk_own(g.node) if isinstance(n, ast.For)]:
+        # comprehension / extend(generator) form: analyse the equivalent append loop
+        from ..normalise import normalised_repo
+        r2 = normalised_repo(repo, GENERIC, 'get_attrs_to_project')
+        if r2 is not None:
+            g = r2.fn(GENERIC, 'get_attrs_to_project')
     gv = view_of(g)
     o_p, k_p, j_p = g.params[:3]
     loops = [n for n in walk_own(g.node) if isinstance(n, ast.For)]
